@@ -102,9 +102,10 @@ def identity_rule_contract(interp, fi, args, kwargs):
                       # dropping operators does not create inversions among the remaining ones
                       A.pot(r.arr, n) <= A.pot(a0, n0), A.pot(r.arr, n) >= 0))
     fr = interp.framestack[-1] if getattr(interp, 'framestack', None) else None
+    roles = getattr(interp, 'scan_roles', None) or {}
     if fr is not None:
-        ok, index = fr.lookup('index')
-        ok2, new_ops = fr.lookup('new_ops')
+        ok, index = fr.lookup(roles.get('index', 'index'))
+        ok2, new_ops = fr.lookup(roles.get('new_ops', 'new_ops'))
         if ok:
             m = to_z3(index)
             run.assume(prefix_kept(r.arr, n, a0, n0, m))
@@ -133,16 +134,50 @@ def homothety_rule_contract(interp, fi, args, kwargs):
 
 
 # ------------------------------------------------------------------------------- loop contracts of the scan
-def scan_loop_specs(ghost):
-    def lst(L, name='operands'):
-        v = L.var(name)
+def scan_roles(P):
+    """the locals of AlgebraicReductionRule.apply by ROLE, read off its AST (so that renaming a local does not break the
+    contracts): the scan is `while <index> < len(<operands>) - 1`, its body binds `<left>, <right> = <operands>[<index>],
+    <operands>[<index> + 1]` and, in the registry loop, `<new_ops> = <rule>.apply(<left>, <right>)`"""
+    import ast
+    roles = {'operands': 'operands', 'index': 'index', 'left': 'left', 'right': 'right', 'new_ops': 'new_ops'}
+    try:
+        fi = P.cls('AlgebraicReductionRule').methods['apply']
+        node = fi.node if hasattr(fi, 'node') else fi
+        wh = next(n for n in ast.walk(node) if isinstance(n, ast.While))
+        t = wh.test
+        if isinstance(t, ast.Compare) and isinstance(t.left, ast.Name) and len(t.ops) == 1 and isinstance(t.ops[0], ast.Lt):
+            roles['index'] = t.left.id
+            ln = next(c for c in ast.walk(t.comparators[0]) if isinstance(c, ast.Call) and getattr(c.func, 'id', None) == 'len')
+            if isinstance(ln.args[0], ast.Name):
+                roles['operands'] = ln.args[0].id
+        for st in wh.body:
+            if isinstance(st, ast.Assign) and isinstance(st.targets[0], ast.Tuple) and len(st.targets[0].elts) == 2 \
+                    and all(isinstance(e, ast.Name) for e in st.targets[0].elts):
+                roles['left'], roles['right'] = (e.id for e in st.targets[0].elts)
+                break
+        for n in ast.walk(wh):
+            if isinstance(n, ast.Assign) and isinstance(n.value, ast.Call) and isinstance(n.value.func, ast.Attribute) \
+                    and n.value.func.attr == 'apply' and len(n.value.args) == 2 and isinstance(n.targets[0], ast.Name):
+                roles['new_ops'] = n.targets[0].id
+                break
+    except Exception:       # noqa: BLE001  (unexpected shape of the function: the default names are tried)
+        pass
+    return roles
+
+
+def scan_loop_specs(ghost, roles=None):
+    roles = roles or {'operands': 'operands', 'index': 'index', 'left': 'left', 'right': 'right', 'new_ops': 'new_ops'}
+    OPS, IDX, LEFT, RIGHT = roles['operands'], roles['index'], roles['left'], roles['right']
+
+    def lst(L, name=None):
+        v = L.var(name or OPS)
         return v.as_seq()
 
     def inv_while(L):
         ops = lst(L)
         arr = A.arr_of(L.run, ops)
         n = to_z3(ops.length)
-        idx = to_z3(L.var('index'))
+        idx = to_z3(L.var(IDX))
         return z3.And(idx >= 0, n >= 0, A.pot(arr, n) >= 0,
                       A.Ww(arr, 0, n) == ghost['W0w'], A.Wc(arr, 0, n) == ghost['W0c'],        # C01
                       A.chain_ok(arr, n),
@@ -153,11 +188,11 @@ def scan_loop_specs(ghost):
                       no_identity(arr, n))                                                       # C07 NF3
 
     def havoc_while(L):
-        L.set('operands', B.PyList(None, seq=A.op_seq('ops_h')))
-        L.set('index', fresh_int('index_h'))
+        L.set(OPS, B.PyList(None, seq=A.op_seq('ops_h')))
+        L.set(IDX, fresh_int('index_h'))
 
     def inv_for(L):
-        left, right = L.var('left'), L.var('right')
+        left, right = L.var(LEFT), L.var(RIGHT)
         m = fresh_int('m')
         return z3.ForAll([m], z3.Implies(z3.And(m >= 0, m < to_z3(L.k)),
                                          z3.Not(z3.And(A.Chk(A.REG[m], left, right), A.Apl(A.REG[m], left, right)))))
@@ -166,18 +201,19 @@ def scan_loop_specs(ghost):
         ops = lst(L)
         arr = A.arr_of(L.run, ops)
         n = to_z3(ops.length)
-        return (n, A.pot(arr, n), n - to_z3(L.var('index')))
+        return (n, A.pot(arr, n), n - to_z3(L.var(IDX)))
 
     return {(f'{RULES}.AlgebraicReductionRule.apply', 0): LoopSpec(inv_while, havoc_while, name='scan',
                                                                   variant=variant if ghost.get('termination') else None),
             (f'{RULES}.AlgebraicReductionRule.apply', 1): LoopSpec(inv_for, lambda L: None, name='registry',
-                                                                  unchanged=('operands', 'index'))}
+                                                                  unchanged=(OPS, IDX))}
 
 
 def scan(ck, T, prop):
     """obligations of AlgebraicReductionRule.apply for property `prop` ('C01' or 'C07')"""
     P = ck.P
     ghost = {'termination': prop == 'C01'}
+    roles = scan_roles(P)
 
     def body(S):
         S.oracle = ORACLE[prop]
@@ -189,6 +225,7 @@ def scan(ck, T, prop):
         S.assume(z3.And(A.chain_ok(a0, n0), A.lem_empty(a0, 0)))
         rule = Obj(P.cls('AlgebraicReductionRule'))
         S.I.strict_rule_calls = True
+        S.I.scan_roles = roles
         lst0 = B.PyList(None, seq=ops)
         out = S.call(S.I.getattr(rule, 'apply'), [lst0])
         if not out.normal:
@@ -217,7 +254,7 @@ def scan(ck, T, prop):
                      exact=False)
     contracts = {f'{RULES}.IdentityRule.apply': identity_rule_contract,
                  f'{RULES}.HomothetyRule.apply': homothety_rule_contract}
-    ck.explore(f'{RULES}.AlgebraicReductionRule.apply', body, T, contracts=contracts, loop_specs=scan_loop_specs(ghost),
+    ck.explore(f'{RULES}.AlgebraicReductionRule.apply', body, T, contracts=contracts, loop_specs=scan_loop_specs(ghost, roles),
                axioms=size_axioms())
 
 
@@ -281,16 +318,38 @@ def rules_scenarios(ck, T, prop):
 
     ghost = {}
 
+    def hom_roles():
+        """locals of HomothetyRule.apply's collecting loop by role (AST): the list appended to, the product accumulated with
+        `*=`, the counter incremented with `+= 1`"""
+        import ast
+        roles = {'new': 'new_operands', 'value': 'value', 'count': 'homothety_number'}
+        try:
+            fi = P.cls('HomothetyRule').methods['apply']
+            loop = next(n for n in ast.walk(fi.node) if isinstance(n, ast.For))
+            for n in ast.walk(loop):
+                if isinstance(n, ast.AugAssign) and isinstance(n.target, ast.Name):
+                    if isinstance(n.op, ast.Mult):
+                        roles['value'] = n.target.id
+                    elif isinstance(n.op, ast.Add):
+                        roles['count'] = n.target.id
+                elif isinstance(n, ast.Call) and isinstance(n.func, ast.Attribute) and n.func.attr == 'append' \
+                        and isinstance(n.func.value, ast.Name):
+                    roles['new'] = n.func.value.id
+        except Exception:       # noqa: BLE001
+            pass
+        return roles
+    HR = hom_roles()
+
     def hom_specs():
         def inv(L):
             ops = ghost['ops']
             a0, n0 = ops.arr, to_z3(ops.length)
             k = to_z3(L.k)
-            new = L.var('new_operands').as_seq()
+            new = L.var(HR['new']).as_seq()
             an = A.arr_of(L.run, new)
             nn = to_z3(new.length)
-            value = to_z3(L.var('value'))
-            hn = to_z3(L.var('homothety_number'))
+            value = to_z3(L.var(HR['value']))
+            hn = to_z3(L.var(HR['count']))
             j = fresh_int('j')
             return z3.And(
                 nn >= 0, nn <= k, nn + hn == k,
@@ -305,9 +364,9 @@ def rules_scenarios(ck, T, prop):
                     z3.Implies(z3.And(k >= 1, nn == 0), A.ins(a0[k - 1]) == A.outs(a0[0])))))
 
         def havoc(L):
-            L.set('new_operands', B.PyList(None, seq=A.op_seq('new_h')))
-            L.set('value', z3.Real(f'value_h'))
-            L.set('homothety_number', z3.Int('hn_h'))
+            L.set(HR['new'], B.PyList(None, seq=A.op_seq('new_h')))
+            L.set(HR['value'], z3.Real('value_h'))
+            L.set(HR['count'], z3.Int('hn_h'))
         return {(f'{RULES}.HomothetyRule.apply', 0): LoopSpec(inv, havoc, name='collect')}
 
     def homothety_rule(S):
